@@ -798,3 +798,22 @@ impl Spec {
         parser.is_dimacs() || matches!(parser, ParserId::Aag | ParserId::Aig)
     }
 }
+
+/// An ordered AIG with its implicit numbering made explicit (what `Aig::from(OrderedAig)` and
+/// `ascii::write_ordered_aig` followed by the ASCII parser must yield).
+pub fn ordered_to_plain(a: &AigOwned) -> AigOwned {
+    let mut b = a.clone();
+    let i = a.input_count;
+    b.inputs = (1..=i).map(|v| 2 * v).collect();
+    let mut code = 2 * (i + 1);
+    for l in &mut b.latches {
+        l.0 = Some(code);
+        code = code.wrapping_add(2);
+    }
+    for g in &mut b.ands {
+        g.0 = Some(code);
+        code = code.wrapping_add(2);
+    }
+    b
+}
+
